@@ -21,6 +21,11 @@ CHECKS = {
             "Histories of sets, rand_mode toggles, rangelist/list edits and five call kinds over a two-object world with sub-objects; "
             "TLC checks after every call that every path outside UsedRand(call) in all objects is unchanged and that probe tables "
             "equal Sol computed from the current non-random values and container contents.", "6 C03"),
+    "C04": ("TLA+ trace validation: list semantics of Expr.tla on the facade view; truth tables over (scalars, elements); (size, elements) candidates for random-size lists",
+            "Fixed-size lists with foreach over element / index / both, index arithmetic, sum, unique, membership and literal indices get "
+            "exhaustive truth tables before and after append/extend/assign/clear/setitem; random-size lists (bounded size) are called "
+            "with every size pinned, TLC deciding satisfiability over all (size, elements) candidates; every call logs the "
+            "len/size/index/iteration views, which must describe the one sequence held by the specification.", "6 C04"),
     "C05": ("TLA+ trace validation: SoftAccept (maximality + existence of a priority-respecting greedy order) decided by TLC over the enumerated Sol",
             "For every recorded call of the soft-constraint families TLC enumerates Sol(hard) (<=12 bits), classifies every applicable "
             "soft constraint (with its if/else/implies guards) as kept or violated at the returned values, and requires that no "
@@ -38,6 +43,28 @@ CHECKS = {
             "User exceptions injected at pre/post callbacks of any composite, in with-block bodies and in constraint bodies during "
             "construction, and unsatisfiable calls, followed by constructions, calls and truth tables; every event logs the five "
             "construction stacks plus leftover override nodes and solver handles, which TLC requires to be zero.", "6 C16"),
+    "C08": ("TLA+ trace validation: probes pinning every scalar of an object tree vs Sol with UsedObjs-gated sub-object blocks",
+            "Trees with sibling sub-objects of one class, object lists and cross-level references by attribute chain, list index and "
+            "foreach; rows are solutions, all their single-field mutations and random rows over the whole tree, so an aliased "
+            "reference or a block of a non-random sub-object being enforced changes a row; free-standing calls on sub-object roots.",
+            "6 C08"),
+    "C09": ("TLA+ trace validation (Trace_Stab): memo keyed by (class, stream origin, call history) shared by runs in different processes/environments",
+            "Each history runs in 3-4 fresh processes differing in PYTHONHASHSEED, interleaved unrelated activity and diagnostic "
+            "settings; RandStability.tla models seeds, snapshots (independent copies) and restores (argument copied) as stream "
+            "values and requires every observation of one key to be identical; draws from Python's global generator inside a call "
+            "with an explicit state are counted and must be zero.", "6 C09"),
+    "C14": ("TLA+ trace validation of exhaustive draw-path exploration (exact marginal supports) + hook payload (inferred ranges) vs TLC-enumerated Sol",
+            "For micro-programs every draw sequence of randomize() is executed through a scripted RandState, giving the exact output "
+            "distribution; TLC requires the support of every field's marginal to equal its feasible set and every feasible value to "
+            "lie inside the range list the call actually inferred (hook), from several previous-value histories.", "6 C14"),
+    "C15": ("TLA+ trace validation: pin-probe table = DistSupport /\\ Sol; exact distribution from exhaustive draw-path exploration vs weight/total; distselect/randselect for every seed",
+            "Universal part by truth tables (zero-weight and unlisted values must fail); exact part by enumerating every draw "
+            "sequence and comparing exact fractions with w_i/total and uniform-in-range; helpers observed for every generator "
+            "value 1..total, TLC counting |{seed : result = i}| = w_i.", "6 C15"),
+    "C20": ("TLA+ trace validation: identical truth tables with/without the directive; exhaustive draw-path exploration: no failing path, full support, exact uniformity, equal marginals of program pairs",
+            "Exact marginals of the earlier variable from complete explorations; uniform when the feasible values fill the inferred "
+            "range (hook); program pairs that differ only in how many later values accompany each earlier value must have equal "
+            "marginals (memo in the specification state).", "6 C20"),
     "C10": ("TLA+ trace validation (Trace_VscCov): TLC recomputes the declarative bin partition and every counter after every sample",
             "Random bin specifications over types of 2..8 bits, each sampled with every value of the type plus repeats and gated-off "
             "samples; every event logs all regular/ignore/illegal counters and TLC requires them to equal the counters of the "
